@@ -1,5 +1,6 @@
 import CookModel.Side.BindingsSpec
 import CookModel.Lemmas.BindingsCombine
+import CookModel.Lemmas.ParsedScaled
 /-
   C19  The FFI view mirrors the core recipe and combines amounts faithfully.
 
@@ -182,6 +183,60 @@ theorem C19_selected_out_of_range {α} [Arith α] (ings : List (FIngredient α))
     combineIngredientsSelected ings (i :: rest) = .error (.unwrapNone "expand_with_ingredients") :=
   expand_oob ings [] i rest h
 
+/-! ## audit additions (notes/audit-C19.md) -/
+
+/-- the selected sub-list exists as soon as the indices are in range -/
+theorem C19_selection_exists {α} (ings : List (FIngredient α)) (indices : List Nat)
+    (hin : ∀ i ∈ indices, i < ings.length) :
+    indices.map (fun i => ings[i]?) = (indices.filterMap (fun i => ings[i]?)).map some := by
+  induction indices with
+  | nil => rfl
+  | cons i rest ih =>
+    have hi : i < ings.length := hin i List.mem_cons_self
+    simp only [List.map_cons, List.filterMap_cons, List.getElem?_eq_getElem hi]
+    rw [ih (fun j hj => hin j (List.mem_cons_of_mem _ hj))]
+
+/-- "for all selections and orders": the order in which the indices of a selection are given does not
+    matter — for a permutation of the (in-range) indices the combined map holds the same value under
+    every key of a numeric kind and of kind Empty, and a Text key is present in one iff in the other. -/
+theorem C19_combine_selected_perm (ings : List (FIngredient Rat)) (indices indices' : List Nat)
+    (hp : indices.Perm indices') (hin : ∀ i ∈ indices, i < ings.length)
+    (hlen : indices.length ≤ 4294967296) :
+    ∃ m m', combineIngredientsSelected ings indices = .ok m ∧
+      combineIngredientsSelected ings indices' = .ok m' ∧
+      ∀ name key, (key.unitType ≠ .text → IngredientList.value m' name key = IngredientList.value m name key) ∧
+        ((IngredientList.value m' name key).isSome = (IngredientList.value m name key).isSome) := by
+  have hin' : ∀ i ∈ indices', i < ings.length := fun i hi => hin i (hp.mem_iff.mpr hi)
+  have hlen' : indices'.length ≤ 4294967296 := hp.length_eq ▸ hlen
+  rw [C19_combine_selected_is_subset ings indices _ (C19_selection_exists ings indices hin) hlen,
+    C19_combine_selected_is_subset ings indices' _ (C19_selection_exists ings indices' hin') hlen']
+  apply C19_combine_perm _ _ (hp.filterMap _)
+  have : (indices.filterMap (fun i => ings[i]?)).length ≤ indices.length := List.length_filterMap_le _ _
+  omega
+
+/-! ### every recipe the parser returns (link to C06, Lemmas/ParsedScaled.lean)
+
+  `ParsedScaled r`: `r` is what `parse` returns for some environment and input (valid or alongside
+  diagnostics), scaled by any factor with any converter or by `default_scale`.  For these the hypothesis
+  `IndicesInRange` of the mirror theorems is a theorem (C06, carried through scaling); what remains is
+  `FitsU32` (at most 2^32 components of a kind — a `u32` index cannot say more). -/
+
+/-- the item indices of every parsed and scaled recipe are in range -/
+theorem C19_parsed_indices_in_range {r : ScaledRecipe Rat} (h : ParsedScaled r) : IndicesInRange r :=
+  h.indicesInRange
+
+/-- The mirror clauses for every input and every scaling: same sections, blocks and step items, same
+    components, every item reference resolves to the image of the component it denotes. -/
+theorem C19_mirror_parsed {r : ScaledRecipe Rat} (h : ParsedScaled r) (hfit : FitsU32 r) :
+    Forall₂ SectionMirrors r.sections (intoSimpleRecipe r).sections ∧
+    (Forall₂ IngredientMirrors r.ingredients (intoSimpleRecipe r).ingredients ∧
+      Forall₂ CookwareMirrors r.cookware (intoSimpleRecipe r).cookware ∧
+      Forall₂ TimerMirrors r.timers (intoSimpleRecipe r).timers) ∧
+    (∀ fsec ∈ (intoSimpleRecipe r).sections, ∀ fs, Block.stepBlock fs ∈ fsec.blocks →
+      ∀ fit ∈ fs.items, ItemResolves r (intoSimpleRecipe r) fit) :=
+  ⟨C19_mirror_sections r hfit h.indicesInRange, C19_mirror_components r,
+   C19_mirror_resolves r hfit h.indicesInRange⟩
+
 /-! ## Non-vacuity -/
 
 namespace Ffi
@@ -223,6 +278,11 @@ example : numbersOf exIngs "salt".toList "g".toList = [5, 1/2] := by decide +ker
 example : combineIngredientsSelected exIngs [2, 0, 2] = combineIngredients [exIngs[2], exIngs[0], exIngs[2]] := by
   decide +kernel
 example : combineIngredientsSelected exIngs [7] = .error (.unwrapNone "expand_with_ingredients") := by decide +kernel
+/-- a selection given in two orders: the numeric entries agree -/
+example : (combineIngredientsSelected exIngs [0, 2, 4, 1]).map (fun m => (IngredientList.value m "salt".toList ⟨"g".toList, .number⟩,
+      IngredientList.value m "pepper".toList ⟨[], .range⟩)) =
+    (combineIngredientsSelected exIngs [1, 4, 2, 0]).map (fun m => (IngredientList.value m "salt".toList ⟨"g".toList, .number⟩,
+      IngredientList.value m "pepper".toList ⟨[], .range⟩)) := by decide +kernel
 end Ffi
 
 end Cook
